@@ -87,7 +87,17 @@ def replay_export(ctx, sc, k):
 
     # ---- Import(p) ----
     pw = pp[ipass] if ipass else None
-    o = kf.outcome(Key.from_encoded_key, exported, passphrase=pw) if pw is not None else kf.outcome(Key.from_encoded_key, exported)
+    # a passphrase given explicitly is the passphrase used, whatever the documented fallback variable holds (set on every third case)
+    import os
+    env_set = pw is not None and k % 3 == 1
+    if env_set:
+        os.environ['PYTEZOS_PASSPHRASE'] = 'fallback-of-another-key'
+        desc += ' (PYTEZOS_PASSPHRASE set to another value during the import)'
+    try:
+        o = kf.outcome(Key.from_encoded_key, exported, passphrase=pw) if pw is not None else kf.outcome(Key.from_encoded_key, exported)
+    finally:
+        if env_set:
+            del os.environ['PYTEZOS_PASSPHRASE']
     if o[0] == 'raise':
         got = 'fail'
     else:
@@ -130,12 +140,12 @@ def replay_export(ctx, sc, k):
 UNKNOWN = ['zzzz', 'Abandon', 'abandonn', 'tezos', 'zoo1', 'école']
 
 
-def words_for(seed, n, known, ck, k):
+def words_for(seed, n, known, ck, k, lang='english'):
     """Concretise <<"mn", n, all words known?, checksum ok?>>; flags are re-established with the reference BIP-39 check."""
     rng = random.Random(cr.h('c08-mn', seed, n, known, ck, k))
-    wl = cr.wordlist()
+    wl = cr.wordlist(lang)
     if n in (12, 15, 18, 21, 24):
-        words = cr.mnemonic_from_entropy(rng.randbytes(n * 4 // 3))
+        words = cr.mnemonic_from_entropy(rng.randbytes(n * 4 // 3), lang)
         if not ck:
             for attempt in range(200):
                 w2 = list(words)
@@ -147,12 +157,12 @@ def words_for(seed, n, known, ck, k):
                 else:                            # two words transposed
                     i, j = rng.sample(range(n), 2)
                     w2[i], w2[j] = w2[j], w2[i]
-                if not cr.mnemonic_valid(w2):
+                if not cr.mnemonic_valid(w2, lang):
                     words = w2
                     break
             else:
                 raise MachineryError('could not build a mnemonic with a wrong checksum')
-        if cr.mnemonic_valid(words) != bool(ck):
+        if cr.mnemonic_valid(words, lang) != bool(ck):
             raise MachineryError('mnemonic concretisation does not have the checksum flag of the scenario')
     else:
         words = [rng.choice(wl) for _ in range(n)]
@@ -168,17 +178,25 @@ def replay_mnemonic(ctx, sc, k):
     from pytezos.crypto.key import Key
     _, _, n, known, ck, inform, accepted = sc
     case = {'scenario': to_json(sc), 'k': k}
-    words = words_for(ctx.seed, n, known, ck, k)
-    arg = ' '.join(words) if inform == 'str' else list(words)
-    o = kf.outcome(Key.from_mnemonic, arg) if k % 2 else kf.outcome(Key.from_mnemonic, arg, passphrase='pw', email='a@b.c', validate=True)
+    # the language of the word list is a parameter of the API: every list shipped with the `mnemonic` package takes its turn (English on k = 0)
+    langs = cr.languages()
+    lang = 'english' if k == 0 else langs[(k + n + 3 * bool(known) + 5 * bool(ck)) % len(langs)]
+    words = words_for(ctx.seed, n, known, ck, k, lang)
+    sep = '\u3000' if lang == 'japanese' and k % 2 else ' '       # Japanese phrases are customarily written with ideographic spaces
+    arg = sep.join(words) if inform == 'str' else list(words)
+    kw = {} if lang == 'english' else {'language': lang}
+    case['language'] = lang
+    o = kf.outcome(Key.from_mnemonic, arg, **kw) if k % 2 else kf.outcome(Key.from_mnemonic, arg, passphrase='pw', email='a@b.c', validate=True, **kw)
     got = 'yes' if o[0] == 'ret' else 'no'
+    ctx.extra.setdefault('mnemonic_languages', {})
+    ctx.extra['mnemonic_languages'][lang] = ctx.extra['mnemonic_languages'].get(lang, 0) + 1
     if got == accepted:
         if k == 0 and inform == 'str' and (n in (12, 24) or accepted == 'yes'):
             ctx.sample({'mnemonic': ' '.join(words), 'accepted': got}, limit=6)
         return True
     cls = ('length-%d' % n) if n not in (12, 15, 18, 21, 24) else 'unknown-word' if not known else 'bad-checksum' if not ck else 'valid'
-    ctx.mismatch('C08:mnemonic:%s:%s' % (cls, 'accepted' if got == 'yes' else 'rejected'),
-                 'Key.from_mnemonic(%r): model accepted=%s, pytezos %s %s' % (arg, accepted, got, o[1:] if o[0] == 'raise' else ''), case)
+    ctx.mismatch('C08:mnemonic:%s:%s%s' % (cls, 'accepted' if got == 'yes' else 'rejected', '' if lang == 'english' else ':' + lang),
+                 'Key.from_mnemonic(%r, language=%s): model accepted=%s, pytezos %s %s' % (arg, lang, accepted, got, o[1:] if o[0] == 'raise' else ''), case)
     return False
 
 
@@ -270,7 +288,7 @@ def run(ctx):
     ctx.assumptions = ['symbolic cryptography in the spec; interpreted in replay by `cryptography` (Ed25519 seed -> public key, EC derive_private_key), hashlib Blake2b-160 / sha256 (BIP-39 checksum), own Base58Check with the Tezos prefix bytes',
                        'BLS public keys are recomputed with py_ecc curve arithmetic and an own G1 serialiser (little-endian scalar): not independent of pytezos\' library',
                        'the encrypted form is only round-tripped (no second secretbox implementation in the sandbox); the encrypted import always receives a passphrase (without one pytezos prompts on the terminal)',
-                       'only the word list is taken from the `mnemonic` package; unknown words are picked from a fixed list; validate=True (the default) only; Key.generate is not exercised (it draws OS randomness)',
+                       'only the word lists (all languages shipped) are taken from the `mnemonic` package, as data files; unknown words are picked from a fixed list; validate=True (the default) only; Key.generate is not exercised (it draws OS randomness)',
                        'two derivations with different (email, passphrase) but equal concatenation are not compared',
                        'identical derivation calls with distinct inputs are evaluated once and shared between scenarios; the second of two equal-input derivations is always a fresh call']
     r = ctx.tlc('KeyFlow', kf.cfg(['export', 'mnemonic'], INVS), workers=1, timeout=300)
